@@ -120,10 +120,10 @@ type FileField struct {
 type Case struct {
 	Method    string      `json:"method"`
 	PresetCT  string      `json:"preset_ct,omitempty"` // form payloads: Content-Type header parameter set by the parameter writer itself
-	Overlap   bool        `json:"overlap,omitempty"` // uploads: a second multipart request is built and sent while this one is half read
-	Kind      string      `json:"kind"`       // nil | value | reader | readcloser | buffer (*bytes.Buffer payload) | bytesreader (*bytes.Reader payload) | seekreader | seekreadcloser (readers that implement io.Seeker) | form
-	MediaType string      `json:"media_type"` // the media type the operation chooses
-	Route     string      `json:"route"`      // consumes | empty-then | default: how the choice reaches the runtime
+	Overlap   bool        `json:"overlap,omitempty"`   // uploads: a second multipart request is built and sent while this one is half read
+	Kind      string      `json:"kind"`                // nil | value | reader | readcloser | buffer (*bytes.Buffer payload) | bytesreader (*bytes.Reader payload) | seekreader | seekreadcloser (readers that implement io.Seeker) | form
+	MediaType string      `json:"media_type"`          // the media type the operation chooses
+	Route     string      `json:"route"`               // consumes | empty-then | default: how the choice reaches the runtime
 	Value     *Value      `json:"value,omitempty"`
 	Body      *Blob       `json:"body,omitempty"`
 	Fields    []Field     `json:"fields,omitempty"`
